@@ -11,3 +11,4 @@ import PraatModel.Run
 import PraatModel.Lemmas.Tier
 import PraatModel.Props.C06
 import PraatModel.Props.C07
+import PraatModel.Props.C08
